@@ -19,6 +19,15 @@ class Boundary:
 class Func:
     def __init__(self, name, shape, bounds, length, signing=False, vendor_at=None):
         self.name, self.shape, self.bounds, self.length, self.signing, self.vendor_at = name, shape, bounds, length, signing, vendor_at
+        # an epilogue that is followed by more body: compilers bracket it with remember/restore_state
+        self.remember_at, self.restore_at = [], []
+        for i, b in enumerate(bounds):
+            if b.kind == "epilogue" and (i == 0 or bounds[i - 1].kind != "epilogue"):
+                j = i
+                while j < len(bounds) and bounds[j].kind == "epilogue":
+                    j += 1
+                if j < len(bounds):
+                    self.remember_at.append(b.off); self.restore_at.append(bounds[j].off)
     def rows(self):
         return [(b.off, b.row) for b in self.bounds]
     def call_sites(self):
@@ -70,34 +79,50 @@ def x86_frameless_func(name, rng, npush=None, alloc=None, early=False, noreturn=
     r = R("x86")
     npush = rng.range(0, 3) if npush is None else npush
     alloc = 8 * rng.range(0 if npush else 1, 6) if alloc is None else alloc
+    # which push (if any) saves rbp; afterwards the function uses rbp as a scratch register
+    bp_push = rng.below(npush) if npush and rng.chance(1, 2) else None
     b = []
     off = 0
     spd = 0
+    state = {"slot": None}
     def row(spd):
+        if state["slot"] is not None:
+            return dict(cfa=("r", r["sp"], 8 + spd), fp=("o", state["slot"]), ra=("o", -8))
         return dict(cfa=("r", r["sp"], 8 + spd), fp=("s",), ra=("o", -8))
+    def mk(off, spd, **kw):
+        bd = Boundary(off, spd, row(spd), **kw)
+        if state["slot"] is not None:
+            bd.saved = dict(bd.saved, fp=state["slot"]); bd.fp_scratch = True
+        return bd
     for i in range(npush):
-        b.append(Boundary(off, spd, row(spd), kind="entry" if i == 0 else "prologue")); off += 2; spd += 8
+        b.append(mk(off, spd, kind="entry" if i == 0 else "prologue")); off += 2; spd += 8
+        if bp_push == i:
+            state["slot"] = -8 - spd
     if alloc:
-        b.append(Boundary(off, spd, row(spd), kind="entry" if not b else "prologue")); off += 4; spd += alloc
+        b.append(mk(off, spd, kind="entry" if not b else "prologue")); off += 4; spd += alloc
     ncalls = rng.range(1, 3)
     for i in range(ncalls):
-        b.append(Boundary(off, spd, row(spd), call=off + 5, kind="body")); off += 5
-        b.append(Boundary(off, spd, row(spd), kind="body")); off += rng.range(1, 6)
+        b.append(mk(off, spd, call=off + 5, kind="body")); off += 5
+        b.append(mk(off, spd, kind="body")); off += rng.range(1, 6)
     def epilogue(off, spd):
         out = []
+        saved_slot = state["slot"]
         if alloc:
-            out.append(Boundary(off, spd, row(spd), kind="epilogue")); off += 4; spd -= alloc
+            out.append(mk(off, spd, kind="epilogue")); off += 4; spd -= alloc
         for i in range(npush):
-            out.append(Boundary(off, spd, row(spd), kind="epilogue")); off += 2; spd -= 8
-        out.append(Boundary(off, spd, row(spd), kind="epilogue")); off += 1
+            out.append(mk(off, spd, kind="epilogue")); off += 2; spd -= 8
+            if bp_push is not None and (npush - 1 - i) == bp_push:
+                state["slot"] = None                   # rbp popped: holds the caller's value again
+        out.append(mk(off, spd, kind="epilogue")); off += 1
+        state["slot"] = saved_slot
         return out, off
     full = spd
     if early:
         e, off = epilogue(off, spd); b += e
-        b.append(Boundary(off, full, row(full), call=off + 5, kind="body")); off += 5
-        b.append(Boundary(off, full, row(full), kind="body")); off += 2
+        b.append(mk(off, full, call=off + 5, kind="body")); off += 5
+        b.append(mk(off, full, kind="body")); off += 2
     if noreturn:
-        b.append(Boundary(off, full, row(full), call=off + 5, kind="tailcall")); off += 5
+        b.append(mk(off, full, call=off + 5, kind="tailcall")); off += 5
     else:
         e, off = epilogue(off, full); b += e
     return Func(name, "frameless", b, off)
@@ -210,7 +235,8 @@ def make_program(rng, arch, nfuncs=8):
     return funcs
 
 def program_fdes(funcs, base_svma):
-    return [dict(start=base_svma + f.start, len=f.length, rows=f.rows(), vendor_at=f.vendor_at) for f in funcs]
+    return [dict(start=base_svma + f.start, len=f.length, rows=f.rows(), vendor_at=f.vendor_at,
+                 remember_at=tuple(f.remember_at), restore_at=tuple(f.restore_at)) for f in funcs]
 
 PAC = 0x5a << 56
 
@@ -259,6 +285,8 @@ def make_scenario(rng, arch, funcs, base_avma, stack_top, depth, sign_mask=None)
             mem[cfa + b.saved["ra"]] = v
         if b.fp_set is not None:
             fpv = cfa + b.fp_set
+        elif getattr(b, "fp_scratch", False):
+            fpv = 0x5c7a7c40 + 8 * idx                  # rbp used as a general-purpose register
         if not x86 and idx > 0:
             if "ra" in b.saved:
                 lr_reg = 0xdead0000 + idx            # lr was clobbered by this function's own calls (irrelevant)
